@@ -1028,6 +1028,14 @@ class Exec:
         if isinstance(robj, AbsIter):
             if m == "next":
                 return robj.next()
+            if m == "find" and len(args) == 1 and isinstance(args[0], Closure):
+                # std Iterator::find: advance until the predicate holds (A-LIB); the predicate receives a reference
+                while True:
+                    r = robj.next()
+                    if not r.some:
+                        return r
+                    if self.truth(self.call_closure(args[0], [r.v]), ln):
+                        return r
             raise Unsupported("iterator method %s at line %s" % (m, ln))
         if isinstance(robj, ListIter):
             if m == "enumerate":
